@@ -394,6 +394,9 @@ func (s *Sim) Run(ctxCancel context.CancelFunc) {
 					f = s.Decide(p.op)
 				}
 				p.op.lat = s.Latencies[s.Ch.Intn("lat", len(s.Latencies))]
+				if f != nil && f.Latency > 0 {
+					p.op.lat += f.Latency // a slow operation: it takes effect, its completion is delayed
+				}
 			}
 		}
 		p.ch <- f
